@@ -240,10 +240,13 @@ def call(ev, name, args, kwargs, lineno, env):
     if name in ("logical_not",):
         return m1(bnot, "b")
     if name == "where":
+        if len(args) == 1 and isinstance(args[0], PairMask):
+            return where_pairs(ev, args[0], lineno)
         if len(args) == 1:
             a = args[0]
-            if is_array(a) and a.kind == "b":
-                return (WhereIdx(a),)
+            if is_array(a) and a.kind == "b" and not isinstance(a, Comp):
+                # the increasing array of True positions = arange compressed by the mask
+                return (Comp(a, lambda j: j, "i"),)
             raise Unsupported("np.where(non-mask)")
         c, x, y = args
         if is_array(c):
@@ -327,6 +330,35 @@ def _empty(n, kind):
     else:
         uf = z3.Function("empty%d" % _empty_ctr[0], z3.IntSort(), z3.RealSort())
     return Arr(n, lambda j: uf(V.I(j)), kind)
+
+
+def where_pairs(ev, pm, lineno):
+    """np.where(A == B[:, None]) -> (s, b): all pairs with A[b] == B[s], in row-major order.
+    Modelled by a fresh count and two fresh index functions with the bijection axioms (A4)."""
+    a, bcol = pm.a, pm.b
+    K_ = fresh("npairs", "int")
+    sf = z3.Function("pair_s!%d" % next(V._counter), z3.IntSort(), z3.IntSort())
+    bf = z3.Function("pair_b!%d" % next(V._counter), z3.IntSort(), z3.IntSort())
+    pos = z3.Function("pair_pos!%d" % next(V._counter), z3.IntSort(), z3.IntSort(), z3.IntSort())
+    p, s_, b_ = z3.Int("p!pair"), z3.Int("s!pair"), z3.Int("b!pair")
+    if isinstance(bcol, Comp):
+        ev.add_sel_axioms(bcol.mask)
+        nb = V.count_term(bcol.mask)
+        sel = V.sel_fn(bcol.mask)
+        bval = lambda s: bcol.f(sel(s))
+    else:
+        nb = bcol.n
+        bval = lambda s: bcol.f(s)
+    na = a.n
+    ev.path.facts.append(K_ >= 0)
+    ev.path.facts.append(z3.ForAll([p], z3.Implies(z3.And(p >= 0, p < K_), z3.And(
+        sf(p) >= 0, B(compare("<", sf(p), nb)), bf(p) >= 0, B(compare("<", bf(p), na)),
+        B(compare("==", a.f(bf(p)), bval(sf(p)))), pos(sf(p), bf(p)) == p))))
+    ev.path.facts.append(z3.ForAll([s_, b_], z3.Implies(
+        z3.And(s_ >= 0, B(compare("<", s_, nb)), b_ >= 0, B(compare("<", b_, na)),
+               B(compare("==", a.f(b_), bval(s_)))),
+        z3.And(pos(s_, b_) >= 0, pos(s_, b_) < K_, sf(pos(s_, b_)) == s_, bf(pos(s_, b_)) == b_))))
+    return (Arr(K_, lambda j: sf(V.I(j)), "i"), Arr(K_, lambda j: bf(V.I(j)), "i"))
 
 
 def reduce_extreme(ev, op, a):
